@@ -225,6 +225,24 @@ Section C13.
     rewrite run_history_nth, roundtrip_mode_full. f_equal. exact E.
   Qed.
 
+  (* the export target as a store: an export REPLACES what the database path and the reconstruction directory held, so
+     the artefacts after an export are a function of the exported dataset only, and a sequence of round trips that re-use
+     one target (force_overwrite_existing), starting from ANY previous content, gives call by call what each round trip
+     gives alone -- nothing of an earlier dataset (points3D.txt, images.txt, ...) is attributed to a later one. *)
+  Theorem C13_export_replaces_target : forall (s s' : store tok) d,
+    export_to comp tok show ids names Tcolmap.unknown_camera Tcolmap.unknown_camera_exported_as
+              Tcolmap.default_focal_length_factor MAXID false s d
+    = export_to comp tok show ids names Tcolmap.unknown_camera Tcolmap.unknown_camera_exported_as
+                Tcolmap.default_focal_length_factor MAXID false s' d.
+  Proof. reflexivity. Qed.
+
+  Theorem C13_reused_target_history : forall (s : store tok) (h : list (iopts * dataset)),
+    run_on comp tok show read cam_name ids names Tcolmap.unknown_camera Tcolmap.unknown_camera_exported_as
+           Tcolmap.default_focal_length_factor MAXID false s h
+    = run_history comp tok show read cam_name ids names Tcolmap.unknown_camera Tcolmap.unknown_camera_exported_as
+                  Tcolmap.default_focal_length_factor MAXID false h.
+  Proof. intros. apply run_on_history. Qed.
+
   (* colours come back too when they are integers (COLMAP stores bytes) *)
   Theorem C13_points_with_integer_colours : forall d d', IR d = true -> RT d = ROk d' ->
     (forall r, In r (d_points d) -> List.length r = 6%nat /\ forallb is_int (skipn 3 r) = true) ->
@@ -245,6 +263,8 @@ Print Assumptions C13_matches.
 Print Assumptions C13_structure.
 Print Assumptions C13_history_independent.
 Print Assumptions C13_full_import_in_any_history.
+Print Assumptions C13_export_replaces_target.
+Print Assumptions C13_reused_target_history.
 Print Assumptions C13_points_with_integer_colours.
 
 (* ------------------------------------------------------------------ non-vacuity: a concrete in-range dataset where
@@ -338,3 +358,16 @@ Lemma C13_import_without_images_txt_legacy_refuted :
   in_range_repo MPose.compose2 ex_no_traj = true /\ roundtrip_legacy ex_no_traj = RImport
   /\ exists d', roundtrip_spec ex_no_traj = ROk d'.
 Proof. split; [|split]; [vm_compute; reflexivity ..|]. eexists. vm_compute. reflexivity. Qed.
+
+(* (D) re-using an export target: a dataset without trajectories exported over one that had poses kept the old
+   images.txt, and the import gave its image the pose of the other dataset's image *)
+Definition ex_posed : dataset :=
+  mkD [("camA", Cam "PINHOLE" [640; 480; 500; 500; 320; 240])] None (Some [(1%Z, [("camA", ex_pose 0.5 0.5 0.5 0.5 1 2 3)])])
+      [(1%Z, [("camA", "a.jpg")])] None None None [] [].
+Definition ex_unposed : dataset :=
+  mkD [("camA", Cam "PINHOLE" [640; 480; 500; 500; 320; 240])] None None [(7%Z, [("camA", "b.jpg")])] None None None [] [].
+Lemma C13_stale_images_txt_legacy_refuted :
+  in_range_repo MPose.compose2 ex_unposed = true
+  /\ (exists d', reexport_legacy ex_posed ex_unposed = Some d' /\ pose_of d' "b.jpg" = Some (ex_pose 0.5 0.5 0.5 0.5 1 2 3))
+  /\ (exists d', roundtrip_spec ex_unposed = ROk d' /\ pose_of d' "b.jpg" = None).
+Proof. split; [vm_compute; reflexivity|]. split; eexists; split; vm_compute; reflexivity. Qed.
